@@ -59,6 +59,10 @@ def gen_c10(rng, idx, tier, faults):
         alphas = [rng.choice([0.0, 10 ** rng.uniform(-12, -0.01), rng.uniform(0, 0.99)]) for _ in range(na)]
     if rng.random() < 0.5:
         alphas.sort()
+    int_grid = rng.random() < 0.05
+    if int_grid:
+        # an integer-typed grid (alphas=[1, 10, 100], or [0] for a relative grid)
+        alphas = [0] * rng.randint(1, 2) if alpha_type == "relative" else [rng.choice([0, 1, 10, 100, 1000]) for _ in range(na)]
     params = {
         "alphas": alphas,
         "alpha_type": alpha_type,
@@ -69,7 +73,10 @@ def gen_c10(rng, idx, tier, faults):
         # grid values that are bit-identical to singular values of a fold / of the full data
         # (a grid built from np.linalg.svd of the data): there `s > alpha` is exactly False
         params["alphas_from_sv"] = [[rng.choice(["fold1", "fold2", "full"]), rng.random()] for _ in range(rng.randint(1, 3))]
-    if rng.random() < 0.15:
+    if int_grid:
+        params["alphas_form"] = rng.choice(["int_list", "int_ndarray"])
+        params.pop("alphas_from_sv", None)
+    elif rng.random() < 0.15:
         params["alphas_form"] = rng.choice(["ndarray", "ndarray_readonly", "tuple"])  # default: list
     if params["scoring"] is not None and rng.random() < 0.15:
         params["scoring_form"] = "scorer_object"  # the scorer object instead of its name
@@ -351,6 +358,8 @@ class RidgeWorld:
                     newp.update(op["params"])
                     if "alphas" in op["params"]:
                         newp.pop("alphas_from_sv", None)
+                        if "alphas_form" not in op["params"]:
+                            newp.pop("alphas_form", None)  # the new grid is given as a plain list
                     news[op["obj"]] = dict(base, params=newp)
                     kw = self.est_kwargs(newp, X.shape[0])
                     try:
@@ -405,6 +414,10 @@ class RidgeWorld:
         kw["cv"] = self.make_cv(cvspec, n)
         if af == "tuple":
             kw["alphas"] = tuple(alphas)
+        elif af == "int_list":
+            kw["alphas"] = [int(a) for a in alphas]
+        elif af == "int_ndarray":
+            kw["alphas"] = np.array([int(a) for a in alphas], dtype=np.int64)
         elif af:
             kw["alphas"] = np.array(alphas, dtype=float)
             if af == "ndarray_readonly":
